@@ -156,7 +156,11 @@ func genLines(r interface{ IntN(int) int }, n int, includes []string, damage boo
 			case 7:
 				out = append(out, "$GENERATE 1-2 $$GENERATE 1-2 n$ A 10.0.0.$")
 			case 8:
-				switch r.IntN(4) {
+				switch r.IntN(5) {
+				case 4:
+					// type bitmaps with mnemonics nobody knows, shorter and longer than the "TYPE" prefix
+					bogus := []string{"X", "XY", "TYP", "TYPE", "TYPEX", "TYPE65536", "ty", "A6X"}[r.IntN(8)]
+					out = append(out, []string{"bm 300 IN CSYNC 66 3 A NS " + bogus, "bm 300 IN NSEC next.example.org. A " + bogus + " MX", "bm 300 IN NSEC3 1 1 12 aabbccdd 2vptu5timamqttgl4luu9kg21e0aor3s A " + bogus}[r.IntN(3)])
 				case 0:
 					out = append(out, "@ 300 IN A 192.0.2.1 ) stray")
 				case 1:
